@@ -621,6 +621,185 @@ func c04GenTidySeqs(o *hx.Out, r *hx.Rng, n int) error {
 	return nil
 }
 
+// c04GenMany: units with MORE THAN FOUR normalisable numerator components
+// (5-8 quick, up to 12 thorough ns / MB tokens in the numerator), mixed with
+// other words, "-suffix" parts, denominators (incl. ns / MB in a denominator,
+// which stay) and "*" switching back to the numerator.  The base form and the
+// number of rewritten tokens are known BY CONSTRUCTION (not asked of the real
+// Tidy).  Each unit goes (a) through Tidy twice + the reader + metadata +
+// .unit filters (c04One), (b) through ONE reader together with the same metric
+// written in base units, judged by a .unit filter naming either spelling
+// (c04Seq), (c) through direct Tidy calls unit / base / unit (c04TidySeq).
+func c04GenMany(o *hx.Out, r *hx.Rng, n int, kmax int) error {
+	words := []string{"x", "op", "B", "sec", "s", "bytes", "xns", "nsx", "MBps", "turns", "allocs", "nsMB", "NS", "mb", "Åns"}
+	id := 0
+	build := func(k int, fieldable bool) (u, base string, got int) {
+		var su, sb strings.Builder
+		denom := false
+		first := true
+		sep := func(s string) {
+			su.WriteString(s)
+			sb.WriteString(s)
+			switch s[len(s)-1] {
+			case '*':
+				denom = false
+			case '/':
+				denom = true
+			}
+		}
+		tok := func(t string) {
+			su.WriteString(t)
+			if !denom && t == "ns" {
+				sb.WriteString("sec")
+				got++
+			} else if !denom && t == "MB" {
+				sb.WriteString("B")
+				got++
+			} else {
+				sb.WriteString(t)
+			}
+			first = false
+		}
+		numSep := func() {
+			if first {
+				return
+			}
+			switch {
+			case denom:
+				sep("*")
+			case !fieldable && r.Chance(0.1):
+				sep(" ")
+			case r.Chance(0.3):
+				sep("-")
+			default:
+				sep("*")
+			}
+		}
+		for got < k {
+			switch x := r.Intn(10); {
+			case x < 6: // a normalisable numerator component
+				numSep()
+				tok([]string{"ns", "MB"}[r.Intn(2)])
+			case x < 7: // another word in the numerator
+				numSep()
+				tok(words[r.Intn(len(words))])
+			case x < 8: // a -suffix part on what precedes
+				if first {
+					continue
+				}
+				sep("-")
+				tok(words[r.Intn(len(words))])
+			default: // a denominator (op, or ns / MB which must stay), possibly with -suffix
+				if first {
+					continue
+				}
+				sep("/")
+				tok([]string{"op", "s", "ns", "MB", "x"}[r.Intn(5)])
+				if r.Chance(0.3) {
+					sep("-")
+					tok([]string{"x", "ns", "MB"}[r.Intn(3)])
+				}
+			}
+		}
+		// tail: -suffix and/or denominator
+		if r.Chance(0.5) {
+			sep("-")
+			tok(words[r.Intn(len(words))])
+		}
+		if r.Chance(0.7) {
+			sep("/")
+			tok([]string{"op", "s", "ns", "MB"}[r.Intn(4)])
+		}
+		// unique (memo-fresh) denominator token
+		id++
+		q := fmt.Sprintf("q%d", id)
+		if denom {
+			sep("-")
+		} else {
+			sep("/")
+		}
+		tok(q)
+		return su.String(), sb.String(), got
+	}
+	vals := []float64{1, 3, 123.5, 1e9, 1e-9, 1e6, -1, 1e300, 2.5e-300}
+	one := func(u, base string, k int) error {
+		o.Count(fmt.Sprintf("class:many-components:rewritten-numerator-tokens=%d", k))
+		v := vals[r.Intn(len(vals))]
+		if r.Chance(0.3) {
+			v = c04Value(r)
+		}
+		fieldable := c04Fieldable(u)
+		switch r.Intn(3) {
+		case 0:
+			if err := c04TidySeq(o, r, []string{u, base, u}, "many-components"); err != nil {
+				return err
+			}
+			fallthrough
+		case 1:
+			if err := c04One(o, r, u, v, "many-components"); err != nil {
+				return err
+			}
+		default:
+			if !fieldable {
+				return c04One(o, r, u, v, "many-components")
+			}
+			// the same metric written pre-scaled and in base units through ONE reader
+			order := [][]int{{0, 1}, {1, 0}, {0, 1, 0}, {1, 0, 1}}[r.Intn(4)]
+			fam := []string{u, base}
+			var lines []c04SeqLine
+			for _, j := range order {
+				l := c04SeqLine{us: []string{fam[j]}, vs: []float64{v}}
+				if r.Chance(0.4) {
+					l.us = append(l.us, []string{"B/op", "allocs/op", fam[1-j]}[r.Intn(3)])
+					l.vs = append(l.vs, c04Value(r))
+				}
+				lines = append(lines, l)
+				if r.Chance(0.3) {
+					lines = append(lines, c04SeqLine{unit: true, u: fam[r.Intn(2)], val: []string{"lower", "higher"}[r.Intn(2)]})
+				}
+			}
+			o.Count("class:many-components:written-and-base-spelling-through-one-reader")
+			if err := c04Seq(o, fam[r.Intn(2)], lines, []string{u, base, "B/op"}, "many-components"); err != nil {
+				return err
+			}
+		}
+		return nil
+	}
+	// directed: the plain products
+	for k := 5; k <= kmax; k++ {
+		for _, j := range []string{"*", "-"} {
+			for _, t := range [][2]string{{"ns", "sec"}, {"MB", "B"}} {
+				u := strings.Repeat(t[0]+j, k-1) + t[0]
+				b := strings.Repeat(t[1]+j, k-1) + t[1]
+				if err := one(u, b, k); err != nil {
+					return err
+				}
+				if err := one(u+"-x/op", b+"-x/op", k); err != nil {
+					return err
+				}
+			}
+		}
+	}
+	for _, d := range []struct {
+		u, b string
+		k    int
+	}{{"ns*ns*MB*ns*MB-x/op", "sec*sec*B*sec*B-x/op", 5}, {"ns/ns*ns*MB-MB*x*ns-ns/MB", "sec/ns*sec*B-B*x*sec-sec/MB", 6},
+		{"MB*ns*MB*ns*MB*ns/op", "B*sec*B*sec*B*sec/op", 6}, {"x-ns-ns-ns-ns-ns", "x-sec-sec-sec-sec-sec", 5}} {
+		for rep := 0; rep < 3; rep++ {
+			if err := one(d.u, d.b, d.k); err != nil {
+				return err
+			}
+		}
+	}
+	for i := 0; i < n; i++ {
+		u, base, k := build(r.Range(5, kmax), r.Chance(0.85))
+		if err := one(u, base, k); err != nil {
+			return err
+		}
+	}
+	return nil
+}
+
 // c04GenSeq builds sequences of 2-4 results of one metric written differently
 // (and bystanders), with unit lines in between, for every choice of filter literal.
 func c04GenSeq(o *hx.Out, r *hx.Rng, n int) error {
@@ -708,7 +887,7 @@ var c04Comp = []string{"ns", "MB", "B", "sec", "op", "s", "bytes", "xns", "nsx",
 var c04Sep = []string{"/", "*", "-", " ", "\t", "\u00a0", "\u2028", "\u3000", "\u0085", "\v", "//", "*/", "/*", "\u1680", "\n", "\u200b", "\u2003"}
 
 func genC04(o *hx.Out, r *hx.Rng, tier string, replay string) error {
-	o.Rule = "units built from components {ns MB B sec op s bytes xns nsx MBps µs é nsMB '' invalid-UTF-8 …} joined by / * - and ASCII/Unicode white space (exhaustive over a small alphabet up to a bound, then random longer ones, plus the fast-path literals and near misses), each with values from {0,-0,±Inf,NaN,subnormal,max,…} and random bit patterns; observed: benchunit.Tidy (twice), benchfmt.Reader Values, UnitMetadataMap.Get, .unit filters; plus sequences of 2-4 results of one metric written under its written and its base unit in every order (with unit lines in between) read through ONE Reader and judged by ONE Filter (Match then Apply), each result independently; the same with .unit regexps and value lists (.unit:/re/, .unit:(a OR /re/ ...)) on lines of 2-4 measurements where one measurement is named only by its written unit and another by its base unit (regexp.MatchString recorded per (pattern, unit)); and benchunit.Tidy called directly in order within this process, first of all (empty memo table): a unit whose base form still contains ns/MB and then that base form (every order, repeated; fresh units through a unique denominator token), units with ns/MB directly after a letter whose UTF-8 encoding ends in 0x85/0xA0, and ns/MB after multi-byte white space. non-trivial = the unit is rewritten; distinct by (unit, value bits)"
+	o.Rule = "units built from components {ns MB B sec op s bytes xns nsx MBps µs é nsMB '' invalid-UTF-8 …} joined by / * - and ASCII/Unicode white space (exhaustive over a small alphabet up to a bound, then random longer ones, plus the fast-path literals and near misses), each with values from {0,-0,±Inf,NaN,subnormal,max,…} and random bit patterns; observed: benchunit.Tidy (twice), benchfmt.Reader Values, UnitMetadataMap.Get, .unit filters; plus sequences of 2-4 results of one metric written under its written and its base unit in every order (with unit lines in between) read through ONE Reader and judged by ONE Filter (Match then Apply), each result independently; the same with .unit regexps and value lists (.unit:/re/, .unit:(a OR /re/ ...)) on lines of 2-4 measurements where one measurement is named only by its written unit and another by its base unit (regexp.MatchString recorded per (pattern, unit)); and benchunit.Tidy called directly in order within this process, first of all (empty memo table): a unit whose base form still contains ns/MB and then that base form (every order, repeated; fresh units through a unique denominator token), units with ns/MB directly after a letter whose UTF-8 encoding ends in 0x85/0xA0, and ns/MB after multi-byte white space; and units with MORE THAN FOUR normalisable numerator components (5-8, thorough 5-12 ns/MB numerator tokens mixed with other words, -suffix parts, denominators incl. ns/MB that must stay; base form known by construction), each through Tidy twice + reader + metadata + filters, through ONE reader next to the same metric written in base units, and through direct Tidy calls unit/base/unit. non-trivial = the unit is rewritten; distinct by (unit, value bits)"
 	// table case: the rune class and float constants the model is evaluated with
 	o.Add(hx.L(hx.I(0), hx.List(unicodeRanges(unicode.IsSpace)), hx.F64(1e-9), hx.F64(1e6), hx.F64(1e9)),
 		map[string]string{"kind": "tables"}, "tables", false)
@@ -719,6 +898,14 @@ func genC04(o *hx.Out, r *hx.Rng, tier string, replay string) error {
 		ntseq = 8000
 	}
 	if err := c04GenTidySeqs(o, r, ntseq); err != nil {
+		return err
+	}
+	// units with more than four normalisable numerator components
+	nmany, kmax := 400, 8
+	if tier == "thorough" {
+		nmany, kmax = 10000, 12
+	}
+	if err := c04GenMany(o, r, nmany, kmax); err != nil {
 		return err
 	}
 
